@@ -9,7 +9,7 @@ RULE = ('Engine A: same FULL/DEV spaces as C01 (every subset of the six constrai
         'bounds). Oracle recomputes from raw data: sizes and geo ratio in exact rational arithmetic, volume ratio, '
         'share under either documented reading, budget = closed-form required impact / iroas. Completeness '
         'THRESH: budget / share / volume bounds placed between every two consecutive critical values of the panel '
-        '(all subset optimistic impacts and design impacts, also / iroas, rho_max 0.9). Completeness sub-check (inclusiveness of bounds): with no budget range and n_designs >= |feasible set| the exhaustive '
+        '(all subset optimistic impacts and design impacts, also / iroas, rho_max 0.9); the same for share / volume on a share-DRIFT panel with n_pretest_max = T/2 (bounds between the all-dates and the windowed critical values). Completeness sub-check (inclusiveness of bounds): with no budget range and n_designs >= |feasible set| the exhaustive '
         'result must contain every reference-feasible design. Non-trivial = a constraint is specified and at least '
         'one legal design of the reference space violates it; distinct = distinct case.')
 ASSUMPTIONS = ['values: fixed integer panels; continuous bounds judged with 1e-9 relative slack, integer bounds exactly',
@@ -21,7 +21,13 @@ def cases(tier, seed):
     # bounds between every two consecutive critical values (budget incl. iroas / rho_max variants, share, volume)
     out += spaces.threshold_space({'name': 'B', 'G': 4, 'T': 12}, base_kw={'n_designs': 100},
                                   rho_values=(0.995, 0.9) if tier == 'thorough' else (0.9,))
+    # share DRIFT panel with a short analysis window: share / volume bounds between every two critical values of the
+    # documented reading (all supplied dates) AND of the windowed reading, so the two can be told apart
+    out += spaces.threshold_space({'name': 'D', 'G': 4, 'T': 12}, base_kw={'n_designs': 100, 'n_pretest_max': 6},
+                                  parts=('share', 'volume'))
     if tier == 'thorough':
+        out += spaces.threshold_space({'name': 'D', 'G': 5, 'T': 14}, base_kw={'n_designs': 100, 'n_pretest_max': 7},
+                                      parts=('share', 'volume'))
         out += spaces.threshold_space({'name': 'A', 'G': 3, 'T': 12}, base_kw={'n_designs': 100}, rho_values=(0.995, 0.9))
     return out
 
